@@ -152,11 +152,11 @@ Section Clauses.
   Qed.
 
   Lemma f_write_at_ok b off :
-    has (hd_mode f) OpenWrite = true -> 0 <= off -> b <> [] ->
+    has (hd_mode f) OpenWrite = true -> has (hd_mode f) OpenAppend = false -> 0 <= off -> b <> [] ->
     f_write_at s v f b off =
       (with_heap s (upd (f_heap s) c (NFile (put_bytes d (Z.to_nat off) b) k i m)), RInt (zlen b)).
   Proof.
-    intros Hw Hoff Hb. unfold f_write_at.
+    intros Hw Hap Hoff Hb. unfold f_write_at. rewrite Hap.
     destruct (Z.ltb_spec off 0); [lia|]. destruct b as [|b0 b']; [congruence|].
     destruct (hd_name f) eqn:En; [congruence|].
     rewrite Hnode, file_of_c, Hw. cbn [negb].
@@ -175,11 +175,11 @@ Section Clauses.
   Qed.
 
   Lemma gap_write_at b off :
-    has (hd_mode f) OpenWrite = true -> zlen d <= off -> b <> [] ->
+    has (hd_mode f) OpenWrite = true -> has (hd_mode f) OpenAppend = false -> zlen d <= off -> b <> [] ->
     f_write_at s v f b off =
       (with_heap s (upd (f_heap s) c (NFile (d ++ zeros (Z.to_nat off - length d) ++ b) k i m)), RInt (zlen b)).
   Proof.
-    intros Hw Hoff Hb. unfold zlen in Hoff. rewrite f_write_at_ok by (auto; lia).
+    intros Hw Hap Hoff Hb. unfold zlen in Hoff. rewrite f_write_at_ok by (auto; lia).
     rewrite put_bytes_beyond by lia. reflexivity.
   Qed.
 
@@ -222,7 +222,8 @@ Section Clauses.
     intros Hw. unfold f_write, f_write_at, f_truncate.
     destruct (hd_name f) eqn:En; [congruence|].
     rewrite Hnode, file_of_c, Hw. cbn [negb]. repeat split; eauto.
-    - destruct (Z.ltb off 0); [eexists; split; eauto|].
+    - destruct (has (hd_mode f) OpenAppend); [eexists; split; eauto|].
+      destruct (Z.ltb off 0); [eexists; split; eauto|].
       destruct b as [|b0 b']; eexists; split; eauto; congruence.
     - destruct (Z.ltb size 0); eauto.
   Qed.
@@ -240,7 +241,8 @@ Lemma closed_handle s v f :
         if Z.ltb off 0 then RFail EG_NegativeOffset else if Z.leb n 0 then RBytes 0 [] None else RFail EG_Closed)
   /\ (forall b, f_write s v f b = (s, f, RFail EG_Closed))
   /\ (forall b off, f_write_at s v f b off =
-        (s, if Z.ltb off 0 then RFail EG_NegativeOffset else match b with [] => RInt 0 | _ => RFail EG_Closed end))
+        (s, if has (hd_mode f) OpenAppend then RFail EG_WriteAtInAppendMode
+            else if Z.ltb off 0 then RFail EG_NegativeOffset else match b with [] => RInt 0 | _ => RFail EG_Closed end))
   /\ (forall off wh, f_seek s v f off wh = (f, RFail EG_Closed))
   /\ (forall size, f_truncate s v f size = (s, RFail EG_Closed))
   /\ f_stat s v f = RFail EG_FileClosing
@@ -257,6 +259,7 @@ Proof.
     f_close, f_read_dir, f_readdirnames, closed_err.
   rewrite Hc, Hw. destruct (hd_name f) eqn:En; [congruence|].
   repeat split; intros; try reflexivity.
+  destruct (has (hd_mode f) OpenAppend); [reflexivity|].
   destruct (Z.ltb off 0); [reflexivity|]. destruct b; reflexivity.
 Qed.
 
@@ -1086,22 +1089,22 @@ Section StepRefine.
 
   Ltac same_world := unfold Rel; cbn [with_handle with_fs w_fs w_views w_handles]; try (now apply Rel_same_fd); try exact HR.
 
-  Lemma step_write_at fd b off : kf02 st (WriteAt fd b off) = None -> step_ok (WriteAt fd b off).
+  Lemma step_write_at fd b off : step_ok (WriteAt fd b off).
   Proof.
-    intros Hkf. unfold step_ok. cbn [impl_call wstep fspec_step].
+    unfold step_ok. cbn [impl_call wstep fspec_step].
     fd_cases fd o Efd f v Hf Hg Hrel Hon.
     2:{ rewrite no_fd_handle by auto. cbn. auto. }
     destruct Hrel as (Hview & Hname & Hnode & Hlt & Hat & Hr & Hw & Ha).
     destruct (open_inode o Hlt) as (ino & id & Eino & Hperm & Hget).
-    use_kf Hkf Efd Eino.
-    destruct (o_app o) eqn:Eapp; [discriminate|].
     unfold lift.
+    destruct (o_app o) eqn:Eapp.
+    { unfold f_write_at. rewrite Ha. cbn. split; auto; same_world. }
     destruct (Z.ltb_spec off 0) as [Hoff|Hoff].
-    { unfold f_write_at. destruct (Z.ltb_spec off 0); [|lia]. cbn. split; auto; same_world. }
+    { unfold f_write_at. rewrite Ha. destruct (Z.ltb_spec off 0); [|lia]. cbn. split; auto; same_world. }
     destruct b as [|b0 b'].
-    { unfold f_write_at. destruct (Z.ltb_spec off 0); [lia|]. cbn. split; auto; same_world. }
+    { unfold f_write_at. rewrite Ha. destruct (Z.ltb_spec off 0); [lia|]. cbn. split; auto; same_world. }
     destruct (o_closed o) eqn:Ecl.
-    - destruct (closed_handle (w_fs w) v f Hname Hnode (good_view_win Hg)) as (_ & _ & _ & C & _). rewrite C.
+    - destruct (closed_handle (w_fs w) v f Hname Hnode (good_view_win Hg)) as (_ & _ & _ & C & _). rewrite C, Ha.
       destruct (Z.ltb_spec off 0); [lia|].
       erewrite on_fd_closed by eassumption. cbn. split; auto; same_world.
     - erewrite on_fd_open by eassumption.
@@ -1111,7 +1114,7 @@ Section StepRefine.
         unfold Rel. cbn [with_fs w_fs w_views w_handles].
         apply Rel_upd_inode with (ino := ino)
           (ino' := set_bytes ino (put_bytes (i_bytes ino) (Z.to_nat off) (b0 :: b'))); assumption.
-      + unfold f_write_at. destruct (Z.ltb_spec off 0); [lia|].
+      + unfold f_write_at. rewrite Ha. destruct (Z.ltb_spec off 0); [lia|].
         destruct (hd_name f) eqn:Enm; [congruence|]. rewrite Hnode.
         unfold file_of. rewrite Hget, Hw. cbn [negb fst snd fproj_res fproj_err]. rewrite (good_view_win Hg).
         cbn. split; auto; same_world.
